@@ -23,7 +23,7 @@ spec(lean="node_subtree", module="AlgoLMeasure", file=_TREE, cls="Tree.Node", fu
      vars={"ids": "List Int", "pids": "List Int", "self": "Node@self.attach", "sub": "((List Int) × (List Int)) × (List Int)"},
      ret="Tree", fuel=True, tree_cols={"self.attach": {"id": "ids", "pid": "pids"}},
      # trusted: at the topology level `get_subtree_impl` (translated in Gen/AlgoSubtree.lean) returns ((new ids, new pids), mapping) and the new
-     # `Tree(n_nodes, **ndata)` is those two columns (`to_subtree_impl`: `ndata.update(id=new_id, pid=new_pid)`)
+     # `Tree(n_nodes, **ndata)` is those two columns (`to_subtree_impl`: `ndata[names.id] = new_id; ndata[names.pid] = new_pid`)
      stmt_subst={"n_nodes, ndata, source, names = get_subtree_impl(self.attach, self.id, out_mapping=out_mapping)":
                  "sub = get_subtree_impl(self.attach.id(), self.attach.pid(), self.id)",
                  "return Tree(n_nodes, **ndata, source=source, names=names)": "return sub[0]"},
